@@ -205,7 +205,14 @@ func (c *fakeCAS) Get(ctx context.Context, d digest.Digest) buffer.Buffer {
 		return buffer.NewBufferFromError(status.Errorf(codes.NotFound, "blob %s not found", key))
 	}
 	data = append([]byte(nil), data...)
-	if lost := c.shortBy[key]; (lost > 0 || fault == faultShortObject) && len(data) > 0 {
+	if fault == faultShortObject && digestOf(data) != d {
+		// The stored blob is corrupted already (a malformation of the
+		// scenario). Serving that without validation would hand out wrong
+		// bytes that nothing can detect; keep this fault a validated one.
+		fault = faultTruncated
+		c.lastFiredShort = false
+	}
+	if lost := c.shortBy[key]; (lost > 0 || fault == faultShortObject) && len(data) > 0 && digestOf(data) == d {
 		if fault != faultNone && fault != faultShortObject {
 			// A one-shot fault on top of the persistent one.
 			return buffer.NewBufferFromError(status.Errorf(codes.Internal, "injected storage fault at call %d", idx))
